@@ -252,6 +252,10 @@ class Stage:
         self.mc_xmx = mc_xmx
 
 
+FORDER_EVERY = 6
+FORDER_FAMILIES = {'afftree', 'regions', 'linalg', 'schema', 'slice', 'distill', 'arch', 'npz', 'format'}
+
+
 def canon(o):
     return hashlib.sha1(json.dumps(o, sort_keys=True).encode()).hexdigest()
 
@@ -278,6 +282,10 @@ def run_stage(stage, workdir, seed, tier, result):
         scripts = stage.post(scripts, seed, tier)
     if not scripts:
         raise ToolError('stage %s produced no scenario (vacuous model instance?)' % tag)
+    # "forder" variants: a sample of the scenarios is replayed a second time with every matrix handed to the library stored
+    # column-major (same values, other memory layout); the expected behaviour is the same, so the copies share the model's verdicts
+    scripts = scripts + [dict(s, forder=True) for i, s in enumerate(scripts)
+                         if i % FORDER_EVERY == 0 and s.get('fam') in FORDER_FAMILIES]
     for i, s in enumerate(scripts):
         s['sc'] = i
     spath = os.path.join(workdir, tag + '.scripts.ndjson')
